@@ -123,7 +123,9 @@ def stepEv (F : Facts) (r : RS) (e : Ev) (rest : List Ev) : R RS := do
       else pure r)
     pure { r with pendTop := true }
   | "run.ctxdone" =>
-    let r ← ensureCancelled F r rest
+    -- this IS the pending loop top, resolved as the cancelled branch: a cancel placed here (the context was seen done
+    -- before Stop's own instrumentation point was logged) must not resolve it the other way
+    let r ← ensureCancelled F { r with pendTop := false } rest
     let r ← app F r .runLoopTop "run.ctxdone"
     pure { r with pendTop := false }
   | "run.accepterr" =>
